@@ -45,7 +45,7 @@ struct CallCtx {
 struct RecTracer;
 struct StreamRec;
 
-class ExecImpl {
+class ExecImpl : public ClauseSink {
  public:
   explicit ExecImpl(bool shadow_);
   ~ExecImpl();
@@ -127,6 +127,8 @@ class ExecImpl {
   std::string describe_exp(int id) const;
 
   // hooks
+  void clause_log(char kind, int id, int k, long v, const void* a1, const void* a2) override;
+  void clause_point() override;
   void clause_point(CallCtx& c);
   void install_reporter();
 };
